@@ -693,14 +693,28 @@ func (c *BytecodeCompiler) optimiseCalls() {
 }
 
 func (c *BytecodeCompiler) patchOptimisedCall(call *bytecodeCall, method value.Method) {
-	opcode := bytecode.OpCode(call.bytecode.Instructions[call.bytecodeOffset])
+	// The offset of the call was recorded before `prepLocals`
+	// prepended the PREP_LOCALS instruction to the function.
+	offset := call.bytecodeOffset
+	if len(call.bytecode.Instructions) > 0 {
+		switch bytecode.OpCode(call.bytecode.Instructions[0]) {
+		case bytecode.PREP_LOCALS8:
+			offset += 2
+		case bytecode.PREP_LOCALS16:
+			offset += 3
+		}
+	}
+
+	opcode := bytecode.OpCode(call.bytecode.Instructions[offset])
 	switch body := method.(type) {
 	case *vm.BytecodeFunction:
 		switch opcode {
 		case bytecode.CALL_METHOD8, bytecode.CALL_METHOD_TCO8:
-			call.bytecode.Instructions[call.bytecodeOffset] = byte(bytecode.CALL_METHOD_BC8)
+			call.bytecode.Instructions[offset] = byte(bytecode.CALL_METHOD_BC8)
 		case bytecode.CALL_METHOD16, bytecode.CALL_METHOD_TCO16:
-			call.bytecode.Instructions[call.bytecodeOffset] = byte(bytecode.CALL_METHOD_BC16)
+			call.bytecode.Instructions[offset] = byte(bytecode.CALL_METHOD_BC16)
+		default:
+			return
 		}
 		call.bytecode.Values[call.callSiteInfoIndex] = vm.NewBytecodeCallSiteInfo(
 			body,
@@ -710,9 +724,11 @@ func (c *BytecodeCompiler) patchOptimisedCall(call *bytecodeCall, method value.M
 	case *vm.NativeMethod:
 		switch opcode {
 		case bytecode.CALL_METHOD8, bytecode.CALL_METHOD_TCO8:
-			call.bytecode.Instructions[call.bytecodeOffset] = byte(bytecode.CALL_METHOD_NT8)
+			call.bytecode.Instructions[offset] = byte(bytecode.CALL_METHOD_NT8)
 		case bytecode.CALL_METHOD16, bytecode.CALL_METHOD_TCO16:
-			call.bytecode.Instructions[call.bytecodeOffset] = byte(bytecode.CALL_METHOD_NT16)
+			call.bytecode.Instructions[offset] = byte(bytecode.CALL_METHOD_NT16)
+		default:
+			return
 		}
 		call.bytecode.Values[call.callSiteInfoIndex] = vm.NewNativeCallSiteInfo(
 			body,
